@@ -2,11 +2,14 @@ package pxw
 
 import (
 	"bytes"
+	"context"
 	"fmt"
+	"strings"
 	"testing"
 	"time"
 
 	"github.com/cossacklabs/acra/acrablock"
+	translator "github.com/cossacklabs/acra/cmd/acra-translator/common"
 	"github.com/cossacklabs/acra/crypto"
 	"github.com/cossacklabs/acra/poison"
 	"github.com/cossacklabs/themis/gothemis/keys"
@@ -117,6 +120,7 @@ func (C15) Run(t *testing.T, plan *kernel.Plan, keepLog bool) *kernel.Result {
 			desc   string
 		}
 		var cells []planted
+		var payloads [][]byte
 		for i, op := range plan.Ops {
 			var payload []byte
 			isPoison := false
@@ -141,6 +145,10 @@ func (C15) Run(t *testing.T, plan *kernel.Plan, keepLog bool) *kernel.Result {
 			}
 			if op.Arg(2, 0) == 1 {
 				pre := rng.Bytes(int(op.Arg(4, 0)) % 30)
+				if op.Arg(4, 0)%3 == 0 {
+					// bytes that look like the beginning of an envelope tag right before the record
+					pre = append(pre, []byte("%%%%%")[:1+int(op.Arg(4, 0)/3)%5]...)
+				}
 				suffix := rng.Bytes(7)
 				if op.Arg(0, 0) == 4 {
 					// the bytes after a truncated record must not complete it by chance
@@ -153,6 +161,7 @@ func (C15) Run(t *testing.T, plan *kernel.Plan, keepLog bool) *kernel.Result {
 				desc += "/alone"
 			}
 			id := i + 1
+			payloads = append(payloads, append([]byte{}, payload...))
 			mark := []byte(fmt.Sprintf("ROW%03dMARK", id))
 			if op.Arg(3, 0) == 0 {
 				t1.Rows = append(t1.Rows, [][]byte{[]byte(fmt.Sprint(id)), mark, payload})
@@ -196,6 +205,61 @@ func (C15) Run(t *testing.T, plan *kernel.Plan, keepLog bool) *kernel.Result {
 				w.Probe("poison-detected")
 			} else if len(calls) > 0 {
 				w.Violate("C15", "ordinary-data-raises-no-alarm", site, fmt.Sprintf("%d callback(s) for a cell that holds no poison record (%s)", len(calls), c.desc))
+			}
+		}
+		// the same payloads handed to AcraTranslator's decrypt operations (service object, same keystore and callbacks)
+		svc, err := translator.NewTranslatorService(&translator.TranslatorData{Keystorage: pw.KS.KS, PoisonRecordCallbacks: pw.Poison})
+		if err != nil {
+			w.Violate("C15", "world-builds", "translator", err.Error())
+			return
+		}
+		ctx := context.Background()
+		var someHash []byte
+		if resp, err := svc.EncryptSymSearchable(ctx, []byte("some value"), []byte(owner), nil); err == nil {
+			someHash = resp.Hash
+		}
+		for i, c := range cells {
+			payload := payloads[i]
+			ops := []struct {
+				name string
+				call func() ([]byte, error)
+			}{
+				{"Decrypt", func() ([]byte, error) { return svc.Decrypt(ctx, payload, []byte(owner), nil) }},
+				{"DecryptSym", func() ([]byte, error) { return svc.DecryptSym(ctx, payload, []byte(owner), nil) }},
+			}
+			if someHash != nil {
+				ops = append(ops,
+					struct {
+						name string
+						call func() ([]byte, error)
+					}{"DecryptSearchable", func() ([]byte, error) {
+						return svc.DecryptSearchable(ctx, payload, append([]byte{}, someHash...), []byte(owner), nil)
+					}},
+					struct {
+						name string
+						call func() ([]byte, error)
+					}{"DecryptSymSearchable", func() ([]byte, error) {
+						return svc.DecryptSymSearchable(ctx, payload, append([]byte{}, someHash...), []byte(owner), nil)
+					}})
+			}
+			for _, op := range ops {
+				before := len(cb.calls)
+				out, err := op.call()
+				n := len(cb.calls) - before
+				site := "translator/" + op.name + "/" + strings.TrimSuffix(strings.TrimSuffix(c.desc, "/protected-column"), "/unprotected-column")
+				embedded := strings.Contains(c.desc, "/embedded")
+				if embedded && strings.Contains(op.name, "Searchable") {
+					continue // hash + arbitrary bytes + record: what these operations do with it is not stated
+				}
+				if c.poison {
+					if n == 0 {
+						w.Violate("C15", "poison-record-raises-alarm", site, fmt.Sprintf("a poison record was passed to %s and no callback ran (err=%v, %d bytes returned)", op.name, err, len(out)))
+					} else {
+						w.Probe("translator-poison-detected")
+					}
+				} else if !c.poison && n > 0 {
+					w.Violate("C15", "ordinary-data-raises-no-alarm", site, fmt.Sprintf("%d callback(s) from %s for input that holds no poison record", n, op.name))
+				}
 			}
 		}
 		w.State(fmt.Sprintf("cells=%d pairkeys=%d symkeys=%d", len(cells), len(pairRecs), len(symRecs)))
